@@ -385,7 +385,9 @@ func (tt *TermTable) SExt(a *Term, w uint8) *Term {
 	return tt.mk(OpSExt, w, 0, "", a, nil, nil)
 }
 
-// Extract bits [lo, lo+w) of a.
+// Extract bits [lo, lo+w) of a. Descends structurally through zero-extension, bitwise
+// operations and constant shifts (bit-slice tracking), so that packing and unpacking of
+// fields (colours, attribute masks) reduces to the original narrow terms.
 func (tt *TermTable) Extract(a *Term, lo uint8, w uint8) *Term {
 	if lo == 0 && w == a.W {
 		return a
@@ -393,30 +395,63 @@ func (tt *TermTable) Extract(a *Term, lo uint8, w uint8) *Term {
 	if a.IsConst() {
 		return tt.Const(w, a.K>>lo)
 	}
-	if lo == 0 && (a.Op == OpZExt || a.Op == OpSExt) {
+	switch a.Op {
+	case OpZExt, OpSExt:
 		in := a.A[0]
-		if in.W == w {
-			return in
+		if uint(lo)+uint(w) <= uint(in.W) {
+			return tt.Extract(in, lo, w)
 		}
-		if in.W > w {
-			return tt.Extract(in, 0, w)
+		if a.Op == OpZExt && lo >= in.W {
+			return tt.Const(w, 0)
 		}
-		if a.Op == OpZExt {
-			return tt.ZExt(in, w)
+		if lo == 0 {
+			if a.Op == OpZExt {
+				return tt.ZExt(in, w)
+			}
+			return tt.SExt(in, w)
 		}
-		return tt.SExt(in, w)
+		if a.Op == OpZExt && lo < in.W {
+			// low part from in, rest zero
+			return tt.ZExt(tt.Extract(in, lo, in.W-lo), w)
+		}
+	case OpExtract:
+		return tt.Extract(a.A[0], lo+uint8(a.K), w)
+	case OpAnd, OpOr, OpXor:
+		return tt.Bin(a.Op, tt.Extract(a.A[0], lo, w), tt.Extract(a.A[1], lo, w))
+	case OpNot:
+		if !a.IsBool() {
+			return tt.BVNot(tt.Extract(a.A[0], lo, w))
+		}
+	case OpIte:
+		return tt.Ite(a.A[0], tt.Extract(a.A[1], lo, w), tt.Extract(a.A[2], lo, w))
+	case OpShl:
+		if k := a.A[1]; k.IsConst() && k.K < uint64(a.W) {
+			sh := uint8(k.K)
+			if lo >= sh {
+				return tt.Extract(a.A[0], lo-sh, w)
+			}
+			if uint(lo)+uint(w) <= uint(sh) {
+				return tt.Const(w, 0)
+			}
+		}
+	case OpLShr:
+		if k := a.A[1]; k.IsConst() && k.K < uint64(a.W) {
+			sh := uint8(k.K)
+			if uint(lo)+uint(sh)+uint(w) <= uint(a.W) {
+				return tt.Extract(a.A[0], lo+sh, w)
+			}
+			if uint(lo)+uint(sh) >= uint(a.W) {
+				return tt.Const(w, 0)
+			}
+		}
 	}
 	if lo == 0 {
 		// push truncation through ring operations
 		switch a.Op {
-		case OpAdd, OpSub, OpMul, OpAnd, OpOr, OpXor:
+		case OpAdd, OpSub, OpMul:
 			return tt.Bin(a.Op, tt.Extract(a.A[0], 0, w), tt.Extract(a.A[1], 0, w))
 		case OpNeg:
 			return tt.Neg(tt.Extract(a.A[0], 0, w))
-		case OpNot:
-			return tt.BVNot(tt.Extract(a.A[0], 0, w))
-		case OpIte:
-			return tt.Ite(a.A[0], tt.Extract(a.A[1], 0, w), tt.Extract(a.A[2], 0, w))
 		}
 	}
 	return tt.mk(OpExtract, w, uint64(lo), "", a, nil, nil)
